@@ -1,6 +1,7 @@
 package main
 
 import (
+	"regexp"
 	"strings"
 
 	"golang.org/x/tools/go/ssa"
@@ -57,11 +58,11 @@ func c18r1(r *R) {
 					continue
 				}
 				switch {
-				case strings.HasPrefix(e.Desc, "(*strings.Builder).WriteString(local:sb, "):
-					seq = append(seq, flattenConcat(strings.TrimSuffix(strings.TrimPrefix(e.Desc, "(*strings.Builder).WriteString(local:sb, "), ")"))...)
-				case strings.HasPrefix(e.Desc, "(*strings.Builder).WriteByte(local:sb, "):
-					seq = append(seq, "byte:"+strings.TrimSuffix(strings.TrimPrefix(e.Desc, "(*strings.Builder).WriteByte(local:sb, "), ")"))
-				case strings.HasPrefix(e.Desc, "fmt.Fprintf(local:sb, "):
+				case builderCall(e.Desc, "(*strings.Builder).WriteString(") != "":
+					seq = append(seq, flattenConcat(builderCall(e.Desc, "(*strings.Builder).WriteString("))...)
+				case builderCall(e.Desc, "(*strings.Builder).WriteByte(") != "":
+					seq = append(seq, "byte:"+builderCall(e.Desc, "(*strings.Builder).WriteByte("))
+				case builderCall(e.Desc, "fmt.Fprintf(") != "":
 					seq = append(seq, "fprintf")
 				case strings.HasPrefix(e.Desc, "(net/http.Header).Set(") || strings.HasPrefix(e.Desc, "(net/http.Header).Add(") || strings.HasPrefix(e.Desc, "(net/http.Header).Del("):
 					hdr = append(hdr, e.Desc)
@@ -93,7 +94,7 @@ func c18r1(r *R) {
 			}
 		}
 		want = append(want, ver, "byte:32", "$0.tag")
-		good := strings.Join(seq, "|") == strings.Join(want, "|") && len(hdr) == 1 && hdr[0] == `(net/http.Header).Set($1.Header, "Via", (*strings.Builder).String(local:sb))`
+		good := strings.Join(seq, "|") == strings.Join(want, "|") && len(hdr) == 1 && viaSetFromBuilder.MatchString(hdr[0])
 		r.check(good, "ViaModifier.ModifyRequest#append["+ver+"]", p.pos(), "Via := existing chain + \", \" + version + \" \" + tag", "new Via value is built as ["+strings.Join(seq, " ")+"] and written by "+strings.Join(hdr, ";")+"; expected ["+strings.Join(want, " ")+"]")
 	}
 	if nLoop == 0 || nFwd < 4 {
@@ -238,4 +239,25 @@ func flattenConcat(t string) []string {
 		return []string{t}
 	}
 	return append(flattenConcat(l), flattenConcat(r)...)
+}
+
+var viaSetFromBuilder = regexp.MustCompile(`^\(net/http\.Header\)\.Set\(\$1\.Header, "Via", \(\*strings\.Builder\)\.String\(local:\w+\)\)$`)
+
+// builderCall: desc is prefix + "local:<name>, " + rest + ")" (a call on the function's string builder,
+// whatever the local is called); it returns rest, or "".
+func builderCall(desc, prefix string) string {
+	if !strings.HasPrefix(desc, prefix+"local:") || !strings.HasSuffix(desc, ")") {
+		return ""
+	}
+	rest := desc[len(prefix)+len("local:"):]
+	i := strings.Index(rest, ", ")
+	if i < 0 {
+		return ""
+	}
+	for _, ch := range rest[:i] {
+		if !(ch == '_' || ch >= '0' && ch <= '9' || ch >= 'a' && ch <= 'z' || ch >= 'A' && ch <= 'Z') {
+			return ""
+		}
+	}
+	return strings.TrimSuffix(rest[i+2:], ")")
 }
